@@ -9,8 +9,10 @@ from props import base, c03
 from props.base import Context  # noqa: F401
 
 PID = 'C12'
-TIE_MODULES = ['DiffxVerif.Tie.Sections', 'DiffxVerif.Tie.RegexReader']
-NEEDS = ['sections', 're_reader']
+TIE_MODULES = ['DiffxVerif.Tie.Sections']
+NEEDS = ['sections']
+# a change of these pattern tables makes the check search with its escalated budget (no obligation)
+SOFT_PATTERNS = ['re_reader']
 ASSUMPTIONS = [
     'unknown keys are drawn from the key grammar minus the six names the reader looks up; values from the value grammar (plain integers are expected back as integers)',
 ]
